@@ -1,6 +1,7 @@
 # -*- coding: utf-8 -*-
 
 import logging
+import os
 import queue
 import time
 
@@ -65,6 +66,40 @@ def get_ncpu(
             'The ncpu setting must be >= 1!')
 
     return ncpu
+
+
+def _verif_point(
+        where,
+        pid,
+        task_idx,
+):
+    """Verification hook, only called if the environment variable
+    ``ICECUBE_SKYLLH_VERIF`` is set to ``'1'``. It looks up the entry
+    ``(where, pid, task_idx)`` in the JSON encoded plan given through the
+    environment variable ``ICECUBE_SKYLLH_VERIF_PLAN`` and performs the listed
+    actions (``['sleep', seconds]``, ``['raise', message]``, or
+    ``['exit', code]``). The plan is a list of
+    ``{'where': str, 'pid': int, 'task': int | None, 'actions': list}``
+    dictionaries. Without a plan this function does nothing.
+    """
+    plan = os.environ.get('ICECUBE_SKYLLH_VERIF_PLAN')
+    if not plan:
+        return
+
+    import json
+
+    for entry in json.loads(plan):
+        if (entry.get('where') != where) or\
+           (entry.get('pid') != pid) or\
+           (entry.get('task') != task_idx):
+            continue
+        for (action, value) in entry.get('actions', []):
+            if action == 'sleep':
+                time.sleep(value)
+            elif action == 'raise':
+                raise RuntimeError(value)
+            elif action == 'exit':
+                os._exit(value)
 
 
 def parallelize(  # noqa: C901
@@ -158,6 +193,8 @@ def parallelize(  # noqa: C901
 
         result_list = []
         for (task_idx, (args, kwargs)) in enumerate(sub_args_list):
+            if os.environ.get('ICECUBE_SKYLLH_VERIF') == '1':
+                _verif_point('task', pid, task_idx)
             if rss is not None:
                 kwargs['rss'] = rss
             if tl is not None:
@@ -168,6 +205,9 @@ def parallelize(  # noqa: C901
                 squeue.put((pid, task_idx))
 
         rqueue.put((pid, result_list, tl))
+
+        if os.environ.get('ICECUBE_SKYLLH_VERIF') == '1':
+            _verif_point('queued', pid, None)
 
         # Put None object as the last log records queue item.
         lqueue.put_nowait(None)
